@@ -17,7 +17,8 @@ REPO = os.environ.get("VERIF_REPO", "/repo")
 VX = os.path.join(VERIF, "build", "vx", "release", "vx")
 
 
-AUTO_STD_DECLS = """pub uninterp spec fn vxstd_str1(f: int, a: Seq<char>) -> Seq<char>;
+AUTO_STD_DECLS = """pub uninterp spec fn vxstd_pat_rel<P>(f: int, a: Seq<char>, p: P) -> bool;
+pub uninterp spec fn vxstd_str1(f: int, a: Seq<char>) -> Seq<char>;
 pub uninterp spec fn vxstd_str_rel(f: int, a: Seq<char>, b: Seq<char>) -> bool;
 pub uninterp spec fn vxstd_int1(f: int, bits: int, x: int) -> int;
 """
@@ -30,6 +31,9 @@ AUTO_STD_SPECS = [
     ("str::trim", "(a: &str) -> (r: &str)", "r@ == vxstd_str1(5, a@)"),
     ("str::trim_start", "(a: &str) -> (r: &str)", "r@ == vxstd_str1(6, a@)"),
     ("str::trim_end", "(a: &str) -> (r: &str)", "r@ == vxstd_str1(7, a@)"),
+    ("str::starts_with::<P>", "<P: core::str::pattern::Pattern> (a: &str, p: P) -> (r: bool)", "r == vxstd_pat_rel(1, a@, p)"),
+    ("str::ends_with::<P>", "<P: core::str::pattern::Pattern> (a: &str, p: P) -> (r: bool) where for<'a> P::Searcher<'a>: core::str::pattern::ReverseSearcher<'a>", "r == vxstd_pat_rel(2, a@, p)"),
+    ("str::contains::<P>", "<P: core::str::pattern::Pattern> (a: &str, p: P) -> (r: bool)", "r == vxstd_pat_rel(3, a@, p)"),
 ] + [("%s::%s" % (t, f), "(x: %s) -> (r: %s)" % (t, t), "r as int == vxstd_int1(%d, %d, x as int)" % (k, bits))
      for (t, bits) in (("u16", 16), ("u32", 32), ("u64", 64)) for (k, f) in enumerate(("to_be", "from_be", "to_le", "from_le", "swap_bytes"), 1)]
 
@@ -1102,6 +1106,8 @@ class Unit:
         # that adds a console line is decided on its merits instead of being UNDECIDED ("not supported")
         if "print_internals" not in self.features:
             self.features.append("print_internals")
+        if "pattern" not in self.features:
+            self.features.append("pattern")
         std_print = ("\n// ---- console output (all units) ----\n"
                      "pub assume_specification [std::io::_eprint] (_0: core::fmt::Arguments<'_>);\n"
                      "pub assume_specification [std::io::_print] (_0: core::fmt::Arguments<'_>);\n")
@@ -1118,7 +1124,14 @@ class Unit:
             specs += AUTO_PATH_SPECS
         for (path, sig, ens) in specs:
             if not re.search(r"assume_specification\s*(<[^\[]*>)?\s*\[\s*%s\s*\]" % re.escape(path), body):
-                auto.append("pub assume_specification [%s] %s%s;" % (path, sig, ("\n    ensures %s" % ens) if ens else ""))
+                gen = ""
+                if sig.startswith("<"):
+                    gen, sig = sig[:sig.index(">") + 1], sig[sig.index(">") + 1:].lstrip()
+                wh = ""
+                if " where " in sig:
+                    sig, wh = sig.split(" where ", 1)
+                    wh = "\n    where " + wh
+                auto.append("pub assume_specification%s [%s] %s%s%s;" % (gen, path, sig, wh, ("\n    ensures %s" % ens) if ens else ""))
         if auto:
             body = body + "\n// ---- std functions named by uninterpreted spec functions (all units, only where not specified by the unit) ----\n" + AUTO_STD_DECLS + "\n".join(auto) + "\n"
         feats = "".join("#![feature(%s)]\n" % f for f in self.features)
